@@ -9,10 +9,32 @@ TRUSTED = ("Assumes the store contract S1-S14 of DESIGN.md section 4 (simpg stan
            "storage/ledger/store.go transaction control over the sim database/sql driver. ")
 
 # property -> (technique, level text, level note, design ref, built?)
+SIM = "deterministic simulation with fault injection: "
 CLAIMED = {
-    "C06": ("deterministic simulation: seeded schedules of 2-4 concurrent writers at store-call granularity + commit-sequence invariant on balances vs declared allowance",
+    "C01": (SIM + "seeded histories of every write kind (big amounts, self postings, reverts) with store faults and crashes; conservation and volumes-equal-fold-of-postings checked after every simulated commit",
+            "Seeded exploration; after every commit and at the end, per ledger and asset total input equals total output and the volume rows equal an independent fold of the committed postings. Covers the Go side of the mechanism only (postings produced by every write path, Transaction.VolumeUpdates).",
+            TRUSTED + "SCOPE LIMIT: the accumulation upsert and every read path (aggregated balances, PIT volumes) are SQL and are not executed.", "9/C01"),
+    "C06": (SIM + "seeded schedules of 2-4 concurrent writers at store-call granularity + commit-sequence invariant on balances vs declared allowance",
             "Seeded exploration of interleavings (and store faults) of concurrent spenders through the real HTTP API; at every simulated commit the balance of each bounded source is compared with its allowance. Sampling, not proof.",
             TRUSTED + "The row locking itself (SELECT ... FOR UPDATE in balances.go) is part of the contract, not checked.", "9/C06"),
+    "C07": (SIM + "seeded store faults (statement error, connection loss, deadlock, too many clients, clean commit failure, client disconnect) at every store-call position of every write kind, naturally failing inputs and dry runs; oracle = committed logs vs acknowledged writes + state equals replay of logs + no event + no lock left",
+            "Seeded exploration of fault positions and failing inputs; a failed or dry-run write must leave no log, no state the logs do not explain, no event, no lock or open transaction.",
+            TRUSTED + "Effects of data SQL the stub does not execute are out of reach.", "9/C07"),
+    "C08": (SIM + "seeded concurrent histories of all write kinds with faults and crashes; oracle = one log per acknowledged write, no unexplained log, independent replay of the stored log payloads equals the stored state, log ids follow commit order where the store serialises insertion",
+            "Seeded exploration; the journal is compared with the acknowledged writes and replayed by an independent replayer that knows only the payload shapes.",
+            TRUSTED + "Id-versus-commit order is only checked for HASH_LOGS=SYNC ledgers (elsewhere it is a property of PostgreSQL sequences).", "9/C08"),
+    "C13": (SIM + "seeded schedules of 2-5 concurrent/sequential requests sharing an idempotency key (same and different inputs, every write kind) with ambiguous commits, crashes and disconnects; oracle = at most one committed effect per key, structural answer rules, porcupine linearizability against an exactly-once model",
+            "Seeded exploration; callers' answers are checked for linearizability (porcupine) against a model where each key is applied once and business errors reflect the balance at their linearization point.",
+            TRUSTED + "The unique index on (ledger, idempotency_key) is part of the contract (S7).", "9/C13"),
+    "C15": (SIM + "seeded histories with concurrent reverts of the same transaction (force x atEffectiveDate, v1 and v2, with faults); oracle = exactly one revert transaction per reverted transaction, exact inverse postings, single success answer, conservation",
+            "Seeded exploration of concurrent and repeated reverts through the real API.",
+            TRUSTED + "The conditional UPDATE ... WHERE reverted_at IS NULL is part of the contract (S5).", "9/C15"),
+    "C31": (SIM + "recording listener (real bus listener in half of the runs) with global event sequence numbers; seeded faults incl. commit failures on single writes, first writes of a ledger and concurrent writers; oracle = exactly one event per committed log, after its commit, none otherwise",
+            "Seeded exploration; every listener callback is ordered against the simulated commit that made its write durable.",
+            TRUSTED, "9/C31"),
+    "C32": (SIM + "seeded bulks (all element kinds, planted failing elements) x atomic/continueOnFailure/parallel x json/json-stream through the real handlers and Bulker, pool workers scheduled by the simulator, with faults; oracle = one result per element, result i describes element i and equals the standalone answer, atomic all-or-nothing, ordered short-circuit",
+            "Seeded exploration of bulk requests through the real handlers; effects are read from the committed logs.",
+            TRUSTED, "9/C32"),
 }
 
 PENDING = {}
